@@ -34,6 +34,8 @@ impl RustDocument {
     }
 
     pub fn extend(&mut self, other: RustDocument) {
+        #[cfg(feature = "verif")]
+        let (verif_overwritten, verif_from_nodes) = (crate::verif::merge_overwrites(self, &other), other.nodes.len());
         self.namespace_lookup.extend(other.namespace_lookup);
 
         extend_no_duplicates(&mut self.namespaces, other.namespaces);
@@ -44,6 +46,8 @@ impl RustDocument {
         self.soap_ports.extend(other.soap_ports);
         self.soap_bindings.extend(other.soap_bindings);
         self.soap_services.extend(other.soap_services);
+        #[cfg(feature = "verif")]
+        crate::verif::merge(&verif_overwritten, verif_from_nodes, self);
     }
 
     pub fn empty() -> Self {
@@ -62,21 +66,43 @@ impl RustDocument {
 
     pub fn add_namespace_reference(&mut self, original_abbreviation: &str, url: &str) {
         if original_abbreviation.is_empty() || url.is_empty() {
+            #[cfg(feature = "verif")]
+            crate::verif::ns_ref(original_abbreviation, url, "empty", None);
             return;
         }
 
         if WELL_KNOWN_NAMESPACES.contains(&url) {
+            #[cfg(feature = "verif")]
+            crate::verif::ns_ref(original_abbreviation, url, "well_known", None);
             return;
         }
 
         // check if the abbreviation is already in use
         if self.namespace_lookup.contains_key(original_abbreviation) {
+            #[cfg(feature = "verif")]
+            crate::verif::ns_ref(
+                original_abbreviation,
+                url,
+                "prefix_taken",
+                self.namespace_lookup
+                    .get(original_abbreviation)
+                    .map(|n| n.abbreviation.as_str()),
+            );
             return;
         }
 
         if let Some(existing) = self.namespaces.iter().find(|ns| ns.namespace == url) {
             self.namespace_lookup
                 .insert(original_abbreviation.to_string(), existing.clone());
+            #[cfg(feature = "verif")]
+            crate::verif::ns_ref(
+                original_abbreviation,
+                url,
+                "alias",
+                self.namespace_lookup
+                    .get(original_abbreviation)
+                    .map(|n| n.abbreviation.as_str()),
+            );
             return;
         }
 
@@ -93,6 +119,13 @@ impl RustDocument {
             .insert(original_abbreviation.to_string(), ns.clone());
 
         self.namespaces.push(ns);
+        #[cfg(feature = "verif")]
+        crate::verif::ns_ref(
+            original_abbreviation,
+            url,
+            "new",
+            self.namespaces.last().map(|n| n.abbreviation.as_str()),
+        );
     }
 
     pub fn find_module_name_from_namespace_reference(&self, abbreviation: &str) -> Option<&str> {
@@ -109,6 +142,14 @@ impl RustDocument {
     }
 
     pub fn switch_to_target_namespace(&mut self, namespace: &str) {
+        #[cfg(feature = "verif")]
+        let verif_outcome = if self.target_namespaces.iter().any(|ns| ns.namespace == namespace) {
+            "already"
+        } else if self.namespaces.iter().any(|ns| ns.namespace == namespace) {
+            "reuse"
+        } else {
+            "new"
+        };
         // check if the namespace is already in the list
         if !self.target_namespaces.iter().any(|ns| ns.namespace == namespace) {
             // Check if we already have a reference to this namespace. If so, use that one, otherwise create a new one.
@@ -132,6 +173,12 @@ impl RustDocument {
             self.namespaces.push(tns.clone());
             self.current_target_namespace = Some(tns);
         }
+        #[cfg(feature = "verif")]
+        crate::verif::switch_tns(
+            namespace,
+            verif_outcome,
+            self.current_target_namespace.as_ref().map(|n| n.abbreviation.as_str()),
+        );
     }
 
     pub fn find_node_by_xml_name<'n>(
@@ -140,15 +187,21 @@ impl RustDocument {
         xml_name: &str,
         namespace: Option<&Namespace>,
     ) -> Option<Rc<RustNode>> {
+        #[cfg(feature = "verif")]
+        let mut verif_guard = crate::verif::LookupGuard::start(xml_name, namespace);
         let rust_node = self.nodes.iter().find(|node| {
             node.rust_type.xml_name().is_some_and(|n| n == xml_name) && node.in_namespace.as_deref() == namespace
         });
 
         if let Some(rust_node) = rust_node {
+            #[cfg(feature = "verif")]
+            verif_guard.hit("list", rust_node);
             return Some(rust_node.clone());
         }
 
         let alt_node = try_to_find_node_by_xml_name_in_xml_doc(start_node, xml_name, namespace, self).ok()?;
+        #[cfg(feature = "verif")]
+        verif_guard.hit("tree", &alt_node);
         Some(alt_node.into())
     }
 
@@ -213,38 +266,54 @@ where
 {
     fn write_xml(&self, writer: &mut W) -> WriterResult<()> {
         FileHeader.write_xml(writer)?;
+        #[cfg(feature = "verif")]
+        crate::verif::emit("header", None);
 
         for namespace in &self.target_namespaces {
             let module = namespace.rust_mod_name.as_str();
             writeln!(writer, "pub mod {module} {{")?;
             writeln!(writer, "    use super::*;")?;
             writeln!(writer, "    use restrictions::CheckRestrictions;")?;
+            #[cfg(feature = "verif")]
+            crate::verif::emit("module_open", Some(module));
             for node in self
                 .nodes
                 .iter()
                 .filter(|n| n.in_namespace.as_deref() == Some(namespace))
             {
                 node.write_xml(writer)?;
+                #[cfg(feature = "verif")]
+                crate::verif::emit("node", node.xml_name());
             }
             writeln!(writer, "}}")?;
+            #[cfg(feature = "verif")]
+            crate::verif::emit("module_close", Some(module));
         }
 
         // finally write the types that do not have a namespace
         for node in self.nodes.iter().filter(|n| n.in_namespace.is_none()) {
             node.write_xml(writer)?;
+            #[cfg(feature = "verif")]
+            crate::verif::emit("root_node", node.xml_name());
         }
 
         // write the soap bindings
         for binding in &self.soap_bindings {
             binding.write_xml(writer)?;
+            #[cfg(feature = "verif")]
+            crate::verif::emit("binding", Some(&binding.name));
         }
 
         // write the soap services
         for service in &self.soap_services {
             service.write_xml(writer)?;
+            #[cfg(feature = "verif")]
+            crate::verif::emit("service", Some(&service.name));
         }
 
         Helpers.write_xml(writer)?;
+        #[cfg(feature = "verif")]
+        crate::verif::emit("helpers", None);
 
         Ok(())
     }
